@@ -20,6 +20,7 @@ def run(ctx):
     dialect_rule(ctx, prog)
     idcol_rule(ctx, syn)
     textlen_rule(ctx, prog)
+    workdir_rule(ctx, syn)
     ctx.not_decided += ["text of values (the format stores values as text)", "file handling and stand-off members", "identifiers that contain the ';' separator (outside the claim)"]
 
     ti = syn.fn("try_into", self_ty="AnnotationCsv<'a>", trait="TryInto<AnnotationBuilder<'a>>") if syn.find_fns("try_into", trait="TryInto<AnnotationBuilder<'a>>") else None
@@ -512,3 +513,141 @@ def textlen_rule(ctx, prog):
             continue
         ctx.report(r, x["key"], "unit mismatch in %s: %s" % (x["body"], x["detail"]), x["file"], x["line"])
     ctx.floor(r, st["bodies"], 100, "bodies of resources.rs / csv.rs analysed")
+
+
+# ---------------------------------------------------------------------- WORKDIR
+def workdir_rule(ctx, syn, rid="C15.WORKDIR"):
+    """The Filename column of the manifest is filename_without_workdir(filename); the reader resolves it with
+    get_filepath: an absolute name as it is, a relative one against the directory of the manifest.  Writer and reader
+    agree iff the stripped name resolves to the file the full name names.  filename_without_workdir is evaluated from
+    its syntax tree on a grid of working directories (none, empty - a store saved under a plain file name -, absolute
+    with and without trailing separator) and file names (inside, outside, a sibling directory that shares the prefix)."""
+    from formula import Evaluator, StructVal, Unknown, Panic, some, is_some, fmt, match_pat
+    r = ctx.rule(rid, "filename_without_workdir(f) resolves (get_filepath: absolute as it is, relative against the working directory) to the file f names, for every working directory / file name on the grid")
+    fns = [f for f in syn.fns if f.qual == "file::filename_without_workdir" and f.body is not None]
+    if len(fns) != 1:
+        ctx.anchor_missing(r, "file::filename_without_workdir")
+        return
+    fn = fns[0]
+    ctx.functions_analysed.add(fn.qual)
+
+    def chars_of(a):
+        if isinstance(a, list) and all(isinstance(c, str) for c in a):
+            return tuple(a)
+        if isinstance(a, tuple) and all(isinstance(c, str) for c in a):
+            return a
+        if isinstance(a, str):
+            return None
+        return NotImplemented
+
+    def h_starts(ends):
+        def h(ev, recv, args, node, env):
+            if isinstance(recv, str) and len(args) == 1:
+                cs = chars_of(args[0])
+                if cs is NotImplemented:
+                    return NotImplemented
+                if cs is None:
+                    return recv.endswith(args[0]) if ends else recv.startswith(args[0])
+                return bool(recv) and (recv[-1] if ends else recv[0]) in cs
+            return NotImplemented
+        return h
+
+    def h_trim(ev, recv, args, node, env):
+        if isinstance(recv, str) and len(args) == 1:
+            cs = chars_of(args[0])
+            if cs is NotImplemented:
+                return NotImplemented
+            m = node["method"]
+            if cs is None:
+                cs = (args[0],)
+                if len(args[0]) != 1:
+                    return NotImplemented
+            out = recv
+            if m in ("trim_start_matches", "trim_matches"):
+                out = out.lstrip("".join(cs))
+            if m in ("trim_end_matches", "trim_matches"):
+                out = out.rstrip("".join(cs))
+            return out
+        return NotImplemented
+
+    def h_strip_prefix(ev, recv, args, node, env):
+        if isinstance(recv, str) and len(args) == 1:
+            cs = chars_of(args[0])
+            if cs is None:
+                return some(recv[len(args[0]):]) if recv.startswith(args[0]) else None
+            if cs is not NotImplemented:
+                return some(recv[1:]) if recv and recv[0] in cs else None
+        return NotImplemented
+
+    def h_workdir(ev, recv, args, node, env):
+        if isinstance(recv, StructVal) and recv.tyname == "Config":
+            return recv["workdir"]
+        return NotImplemented
+
+    def h_map(ev, recv, args, node, env):
+        if (recv is None or is_some(recv)) and args and isinstance(args[0], tuple) and args[0] and args[0][0] == "closure":
+            if recv is None:
+                return None
+            clo = args[0][1]
+            b_ = {}
+            if len(clo["inputs"]) != 1 or not match_pat(clo["inputs"][0], recv[1], b_):
+                raise Unknown("closure parameter pattern")
+            env2 = dict(env)
+            env2.update(b_)
+            return some(ev.eval(clo["body"], env2))
+        return NotImplemented
+
+    def h_to_str(ev, recv, args, node, env):
+        return some(recv) if isinstance(recv, str) and not args else NotImplemented
+
+    def h_expect(ev, recv, args, node, env):
+        if recv is None:
+            raise Panic("expect-on-none", node.get("l"))
+        return recv[1] if is_some(recv) else NotImplemented
+
+    def h_unwrap_or(ev, recv, args, node, env):
+        if recv is None:
+            return args[0]
+        return recv[1] if is_some(recv) else NotImplemented
+
+    hooks = {"starts_with": h_starts(False), "ends_with": h_starts(True), "trim_start_matches": h_trim, "trim_end_matches": h_trim, "trim_matches": h_trim,
+             "strip_prefix": h_strip_prefix, "workdir": h_workdir, "map": h_map, "to_str": h_to_str, "to_string_lossy": lambda ev, recv, args, node, env: recv if isinstance(recv, str) else NotImplemented,
+             "expect": h_expect, "unwrap_or": h_unwrap_or, "as_path": lambda ev, recv, args, node, env: recv if isinstance(recv, str) else NotImplemented}
+
+    def resolve(name, wd):
+        full = name if name.startswith("/") or not wd else wd + "/" + name   # Path::join: an empty base leaves the name as it is
+        absolute = full.startswith("/")
+        return absolute, [c for c in full.split("/") if c not in ("", ".")]
+
+    def show(res):
+        return ("/" if res[0] else "<current directory>/") + "/".join(res[1])
+
+    workdirs = [None, "", "/w", "/w/", "/data/proj"]
+    names = ["f.txt", "sub/f.txt", "/w/f.txt", "/w/sub/f.txt", "/wf.txt", "/w2/f.txt", "/a/b.txt", "/data/proj/x.txt", "/data/proj2/x.txt", "/data/x.txt"]
+    n = 0
+    reported = set()
+    for wd in workdirs:
+        for name in names:
+            cfg = StructVal("Config", {"workdir": None if wd is None else some(wd)})
+            ev = Evaluator(hooks=hooks)
+            try:
+                got = ev.run_body(fn.body, {"filename": name, "config": cfg})
+            except (Unknown, Panic) as ex:
+                if "unevaluated" not in reported:
+                    reported.add("unevaluated")
+                    ctx.report(r, "unevaluated", "filename_without_workdir could not be evaluated on (%r, workdir %r): %s - the agreement of manifest writer and reader on file names is not established" % (name, wd, ex), fn.file, fn.line)
+                continue
+            n += 1
+            r.obligations += 1
+            ok_ = isinstance(got, str) and resolve(got, wd) == resolve(name, wd)
+            if ok_:
+                r.discharged += 1
+                continue
+            kind = "empty-workdir" if wd == "" else "outside" if not (wd and name.startswith(wd.rstrip("/") + "/")) else "inside"
+            if kind == "outside" and wd and name.startswith(wd.rstrip("/")):
+                kind = "prefix-sibling"
+            if kind not in reported:
+                reported.add(kind)
+                ctx.report(r, kind, "filename_without_workdir(%r) with working directory %r gives %r, which the reader resolves to %s - not the file that was written (%s): a store written with such a stand-off file (CSV manifest row, JSON @include) does not load again" % (name, wd, got, show(resolve(got, wd)) if isinstance(got, str) else "?", show(resolve(name, wd))), fn.file, fn.line, {"filename": name, "workdir": wd, "got": got})
+    r.hit("filename_without_workdir", sample={"grid": "%d working directories x %d file names" % (len(workdirs), len(names)), "evaluated": n})
+    ctx.floor(r, n, 40, "evaluations of filename_without_workdir")
